@@ -213,7 +213,7 @@ def check_case(case):
     else:
         spec = copy.deepcopy(shapes(case["pal"])[case["shape"]])
         for c, gi in zip(spec["comps"], case["groups"]):
-            c["g"] = ["", "g1", "g2"][gi]
+            c["g"] = ["", "g1", "g10"][gi]   # one group name is a prefix of the other
     s = build_holes(spec) if case.get("holes") else build(spec)
     conf = config_for(case.get("config", "default"), spec)
     conf_before = copy.deepcopy(conf)
@@ -310,7 +310,7 @@ def main(tier):
     run.require(run.stats["graphviz_renders"] >= 10, "too few Graphviz renders")
     run.require("edited-system" in run.classes, "no edited systems rendered")
     return run.finish(
-        rule="5 system shapes (chain, fan-out, two sources, 2-input PMux, 2-phase system) x ALL assignments of the first 4 (5) components to groups {none, g1, g2} x 7 configurations "
+        rule="5 system shapes (chain, fan-out, two sources, 2-input PMux, 2-phase system) x ALL assignments of the first 4 (5) components to groups {none, g1, g10} x 7 configurations "
              "(default {}, kind override, name override, both, cluster override, rankdir LR + edge colour, empty kind entry) x plain / heat x grouping on / off, rendered to DOT text (fname=*.raw) and parsed; "
              "a subset rendered by real Graphviz (fname=*.json) and compared node / edge / cluster sets; loss magnitudes 1e-14..1e7 W x 5 mantissas (incl. rounding carries) for the SI labels; "
              "5 name menus with spaces, colons, quotes and DOT keywords; every shape additionally reached through an edit history that frees and re-uses node indices. Oracle: node / edge / cluster sets, attribute precedence default < kind < name on every node, caller's config unchanged, "
